@@ -387,3 +387,33 @@ func VerifC03_EveryConfiguredProviderIsDriven() {
 	allDone := (!hasIngress || pi.ensureDone) && (!hasGateway || pg.ensureDone) && (!hasCustom || pc.ensureDone)
 	verifrt.Assert(err == nil && done == allDone, "C03.providers.routedOnlyWhenEveryGatewayIs")
 }
+
+// VerifC19_OnlyTheGeneratedCanaryServiceIsEverDeleted: the stable Service is the user's (and may be shared by several
+// rollouts).  Whatever the configuration — canary Service generation disabled, traffic-routing-only mode, any grace
+// state — the clean-up deletes at most the Service the rollout generated (<stable>-canary), and nothing when it
+// generated none: with generation disabled the "canary Service" *is* the stable Service.
+func VerifC19_OnlyTheGeneratedCanaryServiceIsEverDeleted() {
+	w := mSetup(false)
+	w.ctx.DisableGenerateCanaryService = verifrt.Bool("ctx.disableGenerateCanaryService")
+	w.ctx.OnlyTrafficRouting = verifrt.Bool("ctx.onlyTrafficRouting")
+	for _, ka := range [][2]string{{"svc-uid", "restoreService"}, {"ro-uid", "restoreGateway"}, {"ns/svc-canary", "removeCanaryService"}, {"ns/svc", "removeCanaryService"}} {
+		if verifrt.Bool("grace.pending." + ka[0] + "." + ka[1]) {
+			grace.DefaultGraceExpectations.Expect(ka[0], grace.Action(ka[1]))
+		}
+	}
+	m := NewTrafficRoutingManager(w.cli)
+	direct := verifrt.Bool("call.removeCanaryServiceDirectly")
+	if direct {
+		_, _ = m.RemoveCanaryService(w.ctx)
+	} else {
+		_, _ = m.FinalisingTrafficRouting(w.ctx)
+	}
+	generated := !w.ctx.DisableGenerateCanaryService && !w.ctx.OnlyTrafficRouting
+	for _, ev := range w.events {
+		if strings.HasPrefix(ev, "delete:Service:") {
+			verifrt.Cover("deletes")
+			verifrt.Assert(ev == "delete:Service:svc-canary", "C19.services.neverDeletesTheStableService")
+			verifrt.Assert(generated, "C19.services.deletesOnlyWhatItGenerated")
+		}
+	}
+}
